@@ -101,6 +101,15 @@ class G(tgen.TGen):
 UNBUF = [(b"unshift", True), (b"push", True), (b"unshift", True)]
 
 
+CODE_LITERALS = [b"{", b"a{", b"{{", b"a{{b", b"}}", b"{}}", b"{{{", b"x}}y{", b"{ {", b"<b>{", b"{{- x -}}", b"}", b"a", b"{a", b" {"]
+
+
+def code_literal(rng):
+    """`= "<literal>"`: escaped buffered code whose expression is a string literal with braces"""
+    s = rng.choice(CODE_LITERALS) if rng.random() < 0.7 else b"".join(rng.choice(BRACEY + [b"a", b"-", b" "]) for _ in range(rng.choice([1, 2, 3, 4])))
+    return ('code', [('expr', ('str', s))], True, True)
+
+
 def unbuffered(rng):
     m, arg = rng.choice(UNBUF)
     args = [('num', rng.choice([1, 7, 42]))] if arg else []
@@ -121,8 +130,8 @@ class C06(CoreProp):
             "trim and comment markers, space/tab/CR/LF, multi-byte UTF-8) in every adjacency (text|text, text|tag, tag|text); oracle on "
             "Go's own output: exact equality with the HTML serialiser, and the byte-level lexer model run on the engine's emitted "
             "template source must yield text/string-literal items whose values concatenate to the engine's output. The other half are "
-            "MIXED programs (the same texts next to buffered code, assignments, if/else, case, each, while, mixin definition/call/"
-            "block, unbuffered calls) rendered with data; oracle: the independent pug semantics, white space only at text edges in "
+            "MIXED programs (the same texts next to buffered code, buffered string literals with braces (`= \"a{\"`, F-C06-f), "
+            "assignments, if/else, case, each, while, mixin definition/call/block, unbuffered calls) rendered with data; oracle: the independent pug semantics, white space only at text edges in "
             "trees with control constructs. non-trivial = some text contains a brace and has a neighbour, or tree depth >= 3; "
             "distinct by SHA-1 of the case")
     trusted = [
@@ -143,16 +152,16 @@ class C06(CoreProp):
         "listed deviations (KNOWN_FINDINGS.txt) are reported as KNOWN-FINDING, not judged as violations",
     ]
     not_yet_proved = [
-        "the lexer seam segment (show_toks ts) = Some (map seg_of_tok (lexed ts)) is now a THEOREM for every compiled program of the domain "
-        "node_dom, all node kinds, production and debug mode (C06_lexer_seam_partial = C06_compile_wf, by induction over the compiler "
-        "incl. all of jexpr, followed by C06_lexer_seam_wf, for all well-formed token lists); outside that domain it is FALSE "
-        "(C06_lexer_seam_refuted, four witnesses): a buffered string literal ending in '{' followed by an action (F-C06-f, a defect of "
-        "the code: `= \"a{\"` then `= p` emits a{{{$p | __pug__html}} and the engine fails to load), a template literal with a double "
-        "quote in a literal part (unterminated quoted string at load; literal parts with a backslash or line feed are excluded from "
-        "node_dom as well, without a witness of their own), an element name ending in '{' with attributes (outside the pug grammar) "
-        "and a float literal whose text is not a number (artefact of the model's JNumF). Not "
-        "proved: that the bytes INSIDE an action parse to the `act` its token carries (Tmpl/Lexer.v models only where an action ends; "
-        "DESIGN section 8) -- compared per case through the engine's output and emitted text (lexer_seam_ok)",
+        "the lexer seam segment (show_toks ts) = Some (map seg_of_tok (lexed ts)) is a THEOREM for every compiled program of the domain "
+        "node_dom, all node kinds and all expressions (template literals included), production and debug mode "
+        "(C06_lexer_seam_partial = C06_compile_wf, by induction over the compiler incl. all of jexpr, followed by C06_lexer_seam_wf, for "
+        "all well-formed token lists). node_dom excludes only an element name ending in '{' with attributes (outside the pug grammar) and "
+        "a float literal whose text is not a number (artefact of the model's JNumF); for both the statement is false "
+        "(C06_lexer_seam_refuted). The two former exclusions were defects of the code and are repaired (F-C06-f buffered string literal "
+        "ending in '{', F-C01-h template literal with a double quote in a literal part; C06_lexer_seam_unrepaired_refuted shows the old "
+        "arms failing; C06_code_literal: a buffered string literal never makes the compiler decline). Not proved: that the bytes INSIDE "
+        "an action parse to the `act` its token carries (Tmpl/Lexer.v models only where an action ends; DESIGN section 8) -- compared "
+        "per case through the engine's output and emitted text (lexer_seam_ok)",
         "C06_trim_only_ws at the level of the rendered OUTPUT (render_prod p related to the ideal concatenation by white space at text "
         "edges, through the executor, for all mixed programs): proved are the relation trims_rel for ALL token lists "
         "(C06_lexer_trims_only_ws), the shape theorem that only control actions carry markers for ALL programs (C06_trim_only_ws) and "
@@ -187,6 +196,11 @@ class C06(CoreProp):
                 nodes.insert(rng.randrange(len(nodes) + 1), unbuffered(rng))
         if rng.random() < 0.3:
             nodes.insert(rng.randrange(len(nodes) + 1), ('comment',))
+        if rng.random() < 0.3:
+            # F-C06-f: buffered string literals (`= "a{"`) are written into the template source as text: ending in {,
+            # holding {{ or }}, next to actions and texts (and to each other)
+            for _ in range(rng.choice([1, 1, 2, 3])):
+                nodes.insert(rng.randrange(len(nodes) + 1), code_literal(rng))
         if rng.random() < 0.25:
             name = rng.choice([b"m1", b"card", b"it"])
             body = [text(rng), ('code', [('expr', ('id', b"a"))], True, True), text(rng)]
